@@ -44,7 +44,7 @@ def play_history(bins, beh, n, hist, rng):
     try:
         fx.git_init()
         r0 = fx.monorail(["checkpoint", "update"])
-        cp0 = json.dumps((r0["out"] or {}).get("checkpoint"), sort_keys=True)
+        cpref = [json.dumps((r0["out"] or {}).get("checkpoint"), sort_keys=True)]
         expected = {}     # run -> set of (target, stream) lines expected in its logs
 
         def observe():
@@ -72,7 +72,7 @@ def play_history(bins, beh, n, hist, rng):
             dirs = sorted(int(d) for d in os.listdir(rd) if d.isdigit()) if os.path.isdir(rd) else []
             ev.append({"ev": "ls_runs", "dirs": dirs})
             r = fx.monorail(["checkpoint", "show"])
-            ev.append({"ev": "cp_same", "same": json.dumps((r["out"] or {}).get("checkpoint"), sort_keys=True) == cp0})
+            ev.append({"ev": "cp_same", "same": json.dumps((r["out"] or {}).get("checkpoint"), sort_keys=True) == cpref[0]})
 
         observe()
         for i, h in enumerate(hist):
@@ -111,6 +111,13 @@ def play_history(bins, beh, n, hist, rng):
                     expected[rno] = [(t, s) for t in ran for s in ("out", "err")]
                 ev.append({"ev": "run", "r": rno, "kind": "complete", "n_effects": 5, "ok": ok, "slot": slot, "rc": res["rc"] if res["rc"] is not None else -9,
                            "stderr": res["stderr"].decode("utf-8", "replace")[-200:]})
+            elif h["kind"] == "out_delete":
+                res = fx.monorail(["out", "delete", "--all"])
+                ev.append({"ev": "out_delete_all", "rc": res["rc"] if res["rc"] is not None else -9})
+                cpref[0] = json.dumps(None, sort_keys=True)       # the checkpoint is gone with tracking/
+                printed.clear()
+                observe()
+                continue
             elif h["kind"] == "abort":
                 res = fx.monorail(["run", "-s", "no-such-sequence", "-c", cmd, "-t"] + tsel)
                 ev.append({"ev": "run", "r": rno, "kind": "abort", "n_effects": 2, "ok": False, "slot": -1, "rc": res["rc"] if res["rc"] is not None else -9})
@@ -123,6 +130,13 @@ def play_history(bins, beh, n, hist, rng):
                     while not os.path.exists(first) and time.time() < deadline and p.poll() is None:
                         time.sleep(0.005)
                     time.sleep(rng.random() * 0.05)
+                    # a reader while the run is in flight (its children are parked)
+                    rr = fx.monorail(["result", "show"])
+                    rn = -1
+                    if rr["rc"] == 0 and rr["out"]:
+                        m = re.match(r"cmd(\d+)$", (rr["out"].get("results") or [{}])[0].get("command", ""))
+                        rn = int(m.group(1)) if m else -1
+                    ev.append({"ev": "inflight_result_show", "rc": rr["rc"] if rr["rc"] is not None else -9, "run": rn})
                     fx.kill_group(p)
                     p.wait()
                     rc = p.returncode
@@ -164,6 +178,9 @@ def histories(chk, tier, rng, pid):
             seen.add(k); uniq.append(b)
     rng.shuffle(uniq)
     want = 14 if tier == "quick" else len(uniq)
+    if pid == "C12":
+        # C12 speaks about sequences of runs; histories with crashes belong to C13
+        uniq = [b for b in uniq if all(x["kind"] != "crash" for x in b)]
     for b in uniq[:want]:
         # wrap the 3 model invocations into a longer history: completed runs before and after
         n = rng.choice([2, 3])
@@ -186,6 +203,8 @@ def histories(chk, tier, rng, pid):
         for _ in range(length):
             x = rng.random()
             if pid == "C12" or x < 0.55:
+                if rng.random() < 0.06:
+                    h.append({"kind": "out_delete", "n": 0})
                 h.append({"kind": "complete", "n": 5, "fail": rng.random() < 0.3} if (rng.random() < 0.9 or n == 1) else {"kind": "abort", "n": 2})
             else:
                 cnt = rng.randint(0, 5)
